@@ -512,6 +512,15 @@ def long_cases(seed, tier):
                                 'meta': {'segs': [{'key': key.hex(), 'nonce': nonce,
                                                    'pattern': pattern.hex(), 'len': total}],
                                          'mode': 'short-calls', 'calls': len(parts)}})
+    # one single call of 2^32 + d bytes (>= 2^28 blocks in one call), then short
+    # calls on the same stream; the driver compares with the model itself
+    for keylen in ((32,) if tier == 'quick' else (16, 32)):
+        key = rbytes(rnd, keylen)
+        extra = rnd.choice([53, 16 * rnd.randrange(1, 40) + rnd.randrange(16)])
+        out.append({'kind': 'ctr-huge', 'nt': True, 'expect': '',
+                    'line': 'H %s %d %d' % (key.hex(), rand_nonce(rnd), extra),
+                    'sig': sig('H', keylen, extra),
+                    'meta': {'huge': 'one call of 2^32+%d bytes, then calls of 7, 16 and 77 bytes' % extra}})
     if tier != 'quick':
         # carry out of the third counter byte: 2^24 blocks = 256 MiB
         for keylen in (16, 32):
@@ -577,6 +586,10 @@ def judge(c, ans):
     t = ans.split()
     if kind == 'intr':
         return None
+    if kind == 'ctr-huge':
+        if ans.strip() == 'huge ok':
+            return None
+        return ('oracle:ctr-huge', '%s: %s' % (c['meta']['huge'], ans.strip()))
     if kind == 'block':
         if len(t) != 2:
             return ('oracle:block', 'unparsable answer %r' % ans[:200])
@@ -797,7 +810,8 @@ def run(ctx):
             ctx.add_sample(s)
     ctx.add_sample({'long_streams (mode, blocks, calls)':
                     ['%s %d %d' % (c['meta']['mode'], c['meta']['segs'][0]['len'] // 16,
-                                   c['meta']['calls']) for c in longs[:40:3]]})
+                                   c['meta']['calls']) for c in longs[:40:3] if 'mode' in c['meta']] +
+                    [c['meta']['huge'] for c in longs if 'huge' in c['meta']]})
     # which implementation ran in which build
     intr = {}
     for r in res:
